@@ -13,7 +13,9 @@ real simulator on the virtual loop:
                 through the simulator's queue (CBlock -> event -> Input -> queue -> CBlock),
                 they are *not* synchronous event recursion (that is C11's business and is not
                 generated: no SBlock ever sends an event towards a block that is handling one),
-  * 'acyclic' : feed-forward networks with reconvergent fan-out (random, 'fan': terminals fed
+  * 'acyclic' : feed-forward networks: deep and narrow (20%: a chain of 6-14 blocks, 0-3 stages
+                with a second input from a source / constant / earlier stage, possibly passing
+                through one event edge) or with reconvergent fan-out (random, 'fan': terminals fed
                 by a source directly and through a chain, 'ladder': a block tapping every other
                 block of a chain, i.e. 3-5 paths of unequal length into one block while the
                 total stays below 2 per block), also with forward event edges,
@@ -44,8 +46,13 @@ Oracle (reference: checks/cyclib.py, written from the documentation):
       is as legal as the instability error (which error wins is C09's business); the bound
       (d) on the evaluations of the round applies all the same;
   (c) instability reported for an acyclic network (event edges included) whose path-count
-      bound for that burst (sum over blocks of the number of paths from the changed sources;
-      +1 per block in the start-up burst) is <= MARGIN * number-of-blocks => 'false-instability'.
+      bound for that burst (sum over blocks of the number of paths from the changed sources)
+      is <= MARGIN * number-of-blocks => 'false-instability'. This includes the start-up run:
+      there every block is evaluated once on its own account and again only for input changes
+      after its first evaluation; as the simulator prefers blocks without pending direct
+      predecessors (the anchored mechanism) a network without event edges is evaluated in
+      dependency order, one evaluation per block - a bare chain of any depth has ONE path to
+      every block - and only event edges add re-evaluations (cyclib.Net.path_bound).
       A source changed k times in one instant counts as ONE changed source: the simulator task
       cannot run between the puts, it sees the final values only and settles the network in
       one round per idle moment (its queue may hold the block k times, the set of blocks to
@@ -123,13 +130,15 @@ RULE = ("one run = one random network of 1-9 (thorough: -11) Not/Xor/And/identit
         "Inputs (30% of the runs add constant inputs, literal or edzed.Const, and blocks fed by "
         "constants only): 38% with 1-3 combinational feedback edges, 30% with feedback closed through "
         "on_output->Input 'put' events (plain / negating filter / two-Input chain), 32% acyclic "
-        "with reconvergent fan-out and forward event edges; creation order shuffled, hash_salt "
+        "(a fifth of them chains of 6-14 blocks with 0-3 taps, the rest with reconvergent fan-out) "
+        "and forward event edges; creation order shuffled, hash_salt "
         "drawn per run; then 1-12 bursts of external puts (single toggle, several sources, "
         "several changes of one source, no change, long bursts of 4-16 toggles in one instant); 15% of "
         "the runs: a source whose extra on_output event is refused (EdzedUnknownEvent) for one or "
         "both values; 15%: a block that sends shutdown/abort to '_ctrl' from inside a round; run indices below 1500 use 1-3 blocks so the "
         "small shapes are covered densely; non-trivial = the network has a cycle (direct or "
-        "through events) or at least one burst after start-up evaluated a block; distinct = hash "
+        "through events) or at least one burst after start-up evaluated a block or it is acyclic and "
+        "at least 6 blocks deep (start-up clause); distinct = hash "
         "of (kind, block ops with fan-in in creation order, number of event inputs, per burst: "
         "consistent assignment exists?, outcome, number of evaluations)")
 REACH_EXPECTED = [
@@ -143,6 +152,7 @@ REACH_EXPECTED = [
     'long_burst_back_to_initial', 'acyclic_block_evaluated_4x_within_bound',
     'refused_output_event_then_consistent', 'stopped_on_request_shutdown',
     'stopped_on_request_abort', 'stop_request_in_unstable_round', 'stop_request_in_stable_round',
+    'deep_acyclic_startup_within_bound', 'deep_acyclic_burst_within_bound',
 ]
 ASSUMPTIONS = [
     "boolean values only; block semantics taken from the documentation: Not, And (all), Xor "
@@ -151,6 +161,10 @@ ASSUMPTIONS = [
     "'documented margin' for acyclic networks is taken as 2 x number of blocks of the circuit "
     "(smallest reading of 'propagates through the whole circuit several times'); networks with "
     "a path bound between 2N and the code's 3N are generated but nothing is demanded of them",
+    "the start-up bound of acyclic networks uses the mechanism the property is anchored to "
+    "(blocks without pending direct predecessors are evaluated first): one evaluation per block "
+    "plus the re-evaluations caused by event edges; its premise (evaluations <= bound) is checked "
+    "in every run that ends idle",
     "boundedness is judged against 200 x number of blocks per burst; any smaller constant "
     "limit is accepted",
     "feedback through events = CBlock.on_output -> Input.put -> simulator queue -> CBlock; "
@@ -382,6 +396,10 @@ def execute(plan, trace=False):
                             run.fired('reach:acyclic_block_evaluated_4x_within_bound')
                         if evals > nall:
                             run.fired('reach:acyclic_evals_above_nblocks')
+                        if initial and net.depth >= 7:
+                            run.fired('reach:deep_acyclic_startup_within_bound')
+                        if not initial and net.depth >= 7 and evals >= 7:
+                            run.fired('reach:deep_acyclic_burst_within_bound')
                     else:
                         run.fired('reach:acyclic_over_bound')
                 if bound is not None and evals > bound[0]:
@@ -498,7 +516,7 @@ def execute(plan, trace=False):
                         f"verdict {run.harness_error}")
             run.harness_error = None
         res = run.result()
-        if net.acyclic and not st['post_init_evals']:
+        if net.acyclic and not st['post_init_evals'] and net.depth < 6:
             res['behaviour'] = None
         if trace:
             res['trace'] = run.trace
